@@ -1,3 +1,4 @@
+import Gofasta.Model.Csv
 import Gofasta.Props.C16
 import Gofasta.Model.Validate
 /-
@@ -112,5 +113,31 @@ theorem csv_header_refused (h : List String) (rest : List (List String)) (hh : h
 theorem empty_fasta_refused (m : Mode) : ∃ e, readFasta m [] = .error e := by
   refine ⟨([], .empty), ?_⟩
   simp [readFasta, splitLines, splitLinesAux, rdLines, rdFinish]
+
+open Gofasta.Model.Csv in
+/-- **C18.csv (on bytes)** — with the CSV layer modelled down to the bytes: an empty file, a file of blank lines only, and
+any file whose first record is not exactly the five-column `updown list` header are refused, whatever follows -/
+theorem csv_bytes_empty_refused : readUDL [] = .error ∧ readUDL [nl] = .error ∧ readUDL [cr, nl, nl] = .error := by
+  refine ⟨by decide, by decide, by decide⟩
+
+open Gofasta.Model.Csv in
+theorem csv_bytes_header_refused (text : Bytes) (h : (readRecs text).1.head? ≠ some (splitB comma headerB)) :
+    readUDL text = .error := by
+  unfold readUDL
+  cases hr : (readRecs text).1 with
+  | nil => simp [hr]
+  | cons r rest =>
+    rw [hr] at h
+    have hne : r ≠ splitB comma headerB := by
+      intro e; apply h; simp [e]
+    simp [hr, hne]
+
+open Gofasta.Model.Csv in
+/-- a row that cannot be parsed (bad ambiguity range, bad SNP position, bad count) turns every later outcome into an
+error: nothing after it is presented as success -/
+theorem csv_error_sticks (rows : List (List Bytes)) : rows.foldl (fun o r => parseRow r o) .error = .error := by
+  induction rows with
+  | nil => rfl
+  | cons r t ih => simpa [List.foldl_cons, parseRow] using ih
 
 end Gofasta.Props.C18
